@@ -14,6 +14,9 @@ pub struct Ctx {
     pub session_reset: bool,
     /// skip the store comparison (the handler did it itself)
     pub skip_store: bool,
+    /// further properties for which a missing owed release counts (e.g. C14 for an oversize
+    /// stored packet that must be dropped with its id released)
+    pub owed_props: Vec<&'static str>,
     pub what: String,
 }
 
@@ -153,7 +156,9 @@ impl Watch {
         }
         for x in &ctx.owed {
             if !released.contains(x) {
-                self.flag(&["C08"], format!("release-not-announced/{}", what.split(|c| c == '(' || c == ' ').next().unwrap_or("")), format!("{what}: id {x} must be released and announced in this list: {}", evs_short(evs)));
+                let mut props = vec!["C08"];
+                props.extend(ctx.owed_props.iter().cloned());
+                self.flag(&props, format!("release-not-announced/{}", what.split(|c| c == '(' || c == ' ').next().unwrap_or("")), format!("{what}: id {x} must be released and announced in this list: {}", evs_short(evs)));
                 return;
             }
         }
